@@ -223,6 +223,16 @@ func init() {
 				return true
 			})
 		}
+		// … whose capacity comes from this accessor (and from the option that stores the configured values)
+		out = append(out, returnTexts(l, "pkg/api/server", "DefaultServer.QueryRateLimiter")...)
+		out = append(out, CallSeq(l, "pkg/api/server", "WithQueryRateLimit")...)
+		_, fd := mustFunc(l, "pkg/api/server", "WithQueryRateLimit")
+		ast.Inspect(fd.Body, func(n ast.Node) bool {
+			if as, ok := n.(*ast.AssignStmt); ok {
+				out = append(out, srcText(l, as))
+			}
+			return true
+		})
 		return out, nil
 	}
 	// the status constant handed to the client
